@@ -222,3 +222,42 @@ def serial_reads_can_be_split_anywhere(seed, n):
     finally:
         logging.disable(logging.NOTSET)
     return {"evaluations": evals, "failures": fails}
+
+
+# ---- state carried between serial lines: the sync-cycle tracker -------------------------------------
+from collections import deque  # noqa: E402
+
+
+def port_pkt_read_inner(self, pkt):
+    """Call-site contract of the undecorated PortTransport._pkt_read (hands the packet on)."""
+    self._ghost_delivered.append(pkt)
+
+
+def sym_1f09(i):
+    n = sym_str(f"sync{i}_n", 6, "digit")
+    secs = sym_str(f"sync{i}_secs", 4, "HEX")
+    return Packet.from_port(dt(2023, 11, 30, 13, 15, i), f"045  I --- 01:{n} --:------ 01:{n} 1F09 003 FF{secs}")
+
+
+@harness("C01", cases=[(k, n) for k in (0, 1, 3) for n in (1, 3)])
+def sync_tracker_never_poisons_the_stream(k, n):
+    """track_system_syncs (the decorator on PortTransport._pkt_read) with any k remembered sync
+    packets and any arriving packet with a 1F09-shaped header: it never raises, hands the
+    packet on exactly once, and keeps the invariant that every remembered packet is an
+    I|1F09 of 3 bytes -- so no later line can fail because of an earlier one."""
+    set_global(_transport, "_global_sync_cycles", deque([sym_1f09(i) for i in range(k)], maxlen=3))
+    verb = sym_choice("verb", [" I", "RP"])
+    code = sym_choice("code", ["1F09", "30C9"])
+    payload = sym_str("payload", 2 * n, "HEX")
+    src = "01:" + sym_str("src_n", 6, "digit")
+    p = outcome(Packet.from_port, dt(2023, 11, 30, 13, 16), f"045 {verb} --- {src} --:------ {src} {code} {n:03d} {payload}")
+    assume(p.ok)
+    tp = new_object(_transport.PortTransport, _ghost_delivered=[])
+    inner = _transport.PortTransport._pkt_read.__wrapped__
+    o = outcome(_transport.track_system_syncs(port_pkt_read_inner), tp, p.value)
+    check(o.ok, "the sync tracker does not raise, whatever was remembered and whatever arrives")
+    check(len(tp._ghost_delivered) == 1 and tp._ghost_delivered[0] is p.value, "the packet is handed on exactly once")
+    q = get_global(_transport, "_global_sync_cycles")
+    check(len(q) <= 3, "at most three sync cycles are remembered")
+    for r in q:
+        check(And(r.code == "1F09", r.verb == " I", r._len == 3), "every remembered packet is an I|1F09 with a 3-byte payload")
